@@ -166,14 +166,12 @@ def configs(tier):
     add(kind="cache", lanes=1, words=4, slave_dw=16, cachesize=4, init="zero")
     add(kind="cache", lanes=2, words=2, slave_dw=8, cachesize=2, init="zero", nosel0=1)
     if tier == "thorough":
-        add(kind="down", lanes=4, words=2, ratio=4, init="zero", nosel0=0)
+        # (memories of at most 4-6 bytes: the product with the monitor's own memory must stay enumerable)
         add(kind="down", lanes=4, words=1, ratio=2, init="alt")
+        add(kind="down", lanes=2, words=2, ratio=2, init="zero")
         add(kind="up", lanes=1, words=8, ratio=4, init="idx")
         add(kind="up", lanes=2, words=4, ratio=2, init="alt")
-        add(kind="cache", lanes=1, words=8, slave_dw=8, cachesize=2, init="zero")
-        add(kind="cache", lanes=1, words=8, slave_dw=8, cachesize=4, init="zero")
         add(kind="cache", lanes=1, words=4, slave_dw=16, cachesize=4, init="zero", reverse=False)
-        add(kind="cache", lanes=2, words=4, slave_dw=8, cachesize=2, init="zero", nosel0=1)
-        add(kind="cache", lanes=2, words=4, slave_dw=32, cachesize=4, init="zero", nosel0=1)
         add(kind="sram", lanes=4, words=2, init="alt")
+        add(kind="sram_ro", lanes=1, words=4, init="idx")
     return L
